@@ -56,10 +56,14 @@ let run (st : stream) (b : Buffer.t) : unit =
     (* implementation blocks, in order (init first) *)
     let impl = ref [] in
     while not (eof st) do
-      if peek st = "TR" then impl := read_impl_transition st :: !impl else ignore (next st)
+      if peek st = "TR" || peek st = "TS" then (let tag = peek st in impl := (tag, read_impl_transition st) :: !impl)
+      else ignore (next st)
     done;
     let impl = ref (List.rev !impl) in
-    let next_impl () = match !impl with x :: r -> impl := r; Some x | [] -> None in
+    let next_impl () = match !impl with (_, x) :: r -> impl := r; Some x | [] -> None in
+    (* the accepted steps the implementation's optimiser recorded (TS blocks) precede its result (TR block) *)
+    let rec next_steps () = match !impl with ("TS", x) :: r -> impl := r; x :: next_steps () | _ -> [] in
+    let dirty = ref false in
     let tours = ref [] in
     let ok = ref true in
     List.iteri (fun k p ->
@@ -98,7 +102,7 @@ let run (st : stream) (b : Buffer.t) : unit =
         let ai i = int_of_string (List.nth args i) in
         let valid =
           match kind with
-          | "new" -> true
+          | "new" | "optimise" -> true
           | "move" -> is_member (av 0) && ai 1 < ncyc
           | "remove" | "succ" | "update" -> is_member (av 0)
           | "update2" -> is_member (av 0) && is_member (av 3)
@@ -155,6 +159,35 @@ let run (st : stream) (b : Buffer.t) : unit =
                (match three_opt nw c (an 1) (an 2) (an 3) (tf ()) with
                 | Ok c2 -> (match replace_cycle !tr (an 0) c2 with Ok t -> Ok (Some (t, [])) | _ -> Panic)
                 | _ -> Panic))
+          | "optimise" ->
+            (* replay of the implementation's run on TOpt.v: every recorded step must be a minimal, strictly improving
+               neighbour of the model; at the end no neighbour may be strictly better *)
+            if !dirty then Ok None else begin
+              let cfuel = nat_of_int 100000 in
+              let steps = next_steps () in
+              let cur = ref (Some !tr) in
+              let bad = ref false in
+              List.iteri (fun i rect ->
+                match !cur with
+                | Some t ->
+                  (match topt_neighbors nw (tf ()) cfuel t with
+                   | Ok l ->
+                     let cs = step_codes l t rect in
+                     pr "%s %d ncand=%d %s\n" (if cs = [] then "TOS" else "TOSBAD") i (List.length l) (codes cs);
+                     if cs <> [] then bad := true;
+                     cur := List.find_opt (fun m -> tr_eqb m rect) l
+                   | _ -> pr "TOSBAD %d MODELFAIL\n" i; bad := true; cur := None)
+                | None -> ()) steps;
+              (match !cur with
+               | Some t ->
+                 (match topt_neighbors nw (tf ()) cfuel t with
+                  | Ok l ->
+                    let cs = stop_codes l t in
+                    pr "%s stop steps=%d ncand=%d %s\n" (if cs = [] then "TOS" else "TOSBAD") (List.length steps) (List.length l) (codes cs);
+                    Ok (Some (t, []))
+                  | _ -> pr "TOSBAD stop MODELFAIL\n"; Panic)
+               | None -> Panic)
+            end
           | "succ" ->
             (match get_successor_of !tr (av 0) with
              | Ok s -> pr "SUCC %s %s\n" (vid (av 0)) (vid s); Ok None
@@ -169,6 +202,7 @@ let run (st : stream) (b : Buffer.t) : unit =
             | "new" -> members := vehicles
             | _ -> ());
            let lbl = head ^ " -> OK" in
+           if upd <> [] then dirty := true;
            List.iter (fun (v, nt) ->
              tours := List.map (fun (x, t) -> if vid_eqb x v then (x, nt) else (x, t)) !tours) upd;
            report (String.concat "\n" (lbl :: List.map (fun (v, nt) -> vi_line nw v nt) upd))
